@@ -447,5 +447,21 @@ theorem writeAt_outcome {h : Heap α} {a : Arr} (hv : Valid h a) {idx : List Int
     · apply absArr_eq (by rw [hx, hce])
       rw [cellsOf_live hd hl', cellsOf_live hd hl, List.take_of_length_le (by simp [hlen]), List.take_of_length_le (by rw [hlen]; exact Nat.le_refl _)]
 
+/-- the array a move constructor builds: same block, same value -/
+theorem moveCtor_valid {h : Heap α} {b : Arr} (hv : Valid h b) :
+    Valid h (moveCtor b).1 ∧ absArr h (moveCtor b).1 = absArr h b ∧ (moveCtor b).1.numElements = b.numElements ∧ (moveCtor b).1.base = b.base := by
+  obtain ⟨hx, hn⟩ := hv.rebuild
+  have hnum : (moveCtor b).1.numElements = b.numElements := hn
+  refine ⟨⟨⟨b.exts, hv.exts_ok, rfl⟩, ?_⟩, ?_, hnum, rfl⟩
+  · rcases hv.store with hz | ⟨x, cs, hb, hl, hlen⟩
+    · left; rw [hnum, hz]
+    · right; exact ⟨x, cs, hb, hl, by rw [hnum, hlen]⟩
+  · apply AbsArr.ext'
+    · exact hx
+    · show cellsOf h (moveCtor b).1 = cellsOf h b
+      unfold cellsOf
+      rw [hnum]
+      rfl
+
 end Own
 end Multi
